@@ -158,29 +158,34 @@ impl ShardAssignment {
 
     /// Assign using consistent hashing
     async fn assign_consistent_hash(&self, shard_id: &str) -> Result<String> {
-        let ring = self.hash_ring.read().await;
-
-        if let Some(node_id) = ring.get_node(shard_id) {
-            Ok(node_id)
-        } else {
-            // Ring is empty, populate it
-            drop(ring);
-            let mut ring = self.hash_ring.write().await;
-            let nodes = self.node_registry.get_healthy_ingesters().await;
-
-            if nodes.is_empty() {
-                return Err(crate::Error::Internal(
-                    "No healthy ingester nodes".to_string(),
-                ));
-            }
-
-            for node in &nodes {
-                ring.add_node(&node.id);
-            }
-
-            ring.get_node(shard_id)
-                .ok_or_else(|| crate::Error::Internal("Failed to assign shard".to_string()))
+        let nodes = self.node_registry.get_healthy_ingesters().await;
+        if nodes.is_empty() {
+            return Err(crate::Error::Internal(
+                "No healthy ingester nodes".to_string(),
+            ));
         }
+
+        {
+            let ring = self.hash_ring.read().await;
+            if let Some(node_id) = ring.get_node(shard_id) {
+                // The ring may be stale: only use its answer while that node can
+                // still accept writes.
+                if nodes.iter().any(|n| n.id == node_id) {
+                    return Ok(node_id);
+                }
+            }
+        }
+
+        // Ring is empty or points at a node that is no longer eligible:
+        // rebuild it from the nodes that currently are.
+        let mut ring = self.hash_ring.write().await;
+        ring.clear();
+        for node in &nodes {
+            ring.add_node(&node.id);
+        }
+
+        ring.get_node(shard_id)
+            .ok_or_else(|| crate::Error::Internal("Failed to assign shard".to_string()))
     }
 
     /// Assign using round-robin
